@@ -517,6 +517,14 @@ class Transect:
         # so keep a reference to the original ones
         attrs = data_array.attrs
 
+        # The segments name cells of the default grid.
+        # Values on some other grid, such as edges, are not values of those cells
+        grid_kind = self.convention.get_grid_kind(data_array)
+        if grid_kind != self.convention.default_grid_kind:
+            raise ValueError(
+                f"Data array is defined on the {grid_kind} grid, "
+                f"a transect needs {self.convention.default_grid_kind} data")
+
         data_array = self.convention.ravel(data_array)
 
         depth_dimension = self.transect_dataset.coords['depth'].dims[0]
